@@ -407,7 +407,7 @@ func (tr *Tr) applyContract(fr *frame, callee *ssa.Function, c *Contract, args [
 			tr.vc.CallSite = append(tr.vc.CallSite, "assumed: callback arguments of "+c.Key+" satisfy its [arg] precondition: "+r.Text)
 			continue
 		}
-		tr.oblige(fr, "pre:"+sc, clauseLabel(r, k), "", fr.curReach, t, pos, "precondition of "+c.Key+": "+r.Text)
+		tr.oblige(fr, "pre:"+sc, clauseLabel(r, k), r.Prop, fr.curReach, t, pos, "precondition of "+c.Key+": "+r.Text)
 	}
 	// allocation requests of the callee against the maxalloc clause of the function under verification
 	for _, ac := range []*Clause{c.Allocates, c.MaxAlloc} {
